@@ -806,6 +806,40 @@ impl<T: Storage> RawNode<T> {
     }
 }
 
+/// Read-only copy of the private bookkeeping of a [`RawNode`] (verification hook).
+#[cfg(tikv_raft_rs_verif)]
+#[derive(Debug, Clone, PartialEq)]
+pub struct VerifRawNodeView {
+    /// The soft state handed out by the last accepted Ready.
+    pub prev_ss: (u64, StateRole),
+    /// The hard state handed out by the last accepted Ready.
+    pub prev_hs: HardState,
+    /// Number of the last Ready.
+    pub max_number: u64,
+    /// Outstanding ReadyRecords: (number, last_entry, snapshot).
+    pub records: Vec<(u64, Option<(u64, u64)>, Option<(u64, u64)>)>,
+    /// Index the next committed entries start after.
+    pub commit_since_index: u64,
+}
+
+#[cfg(tikv_raft_rs_verif)]
+impl<T: Storage> RawNode<T> {
+    /// Returns a copy of the private bookkeeping (verification hook, no behaviour).
+    pub fn verif_view(&self) -> VerifRawNodeView {
+        VerifRawNodeView {
+            prev_ss: (self.prev_ss.leader_id, self.prev_ss.raft_state),
+            prev_hs: self.prev_hs.clone(),
+            max_number: self.max_number,
+            records: self
+                .records
+                .iter()
+                .map(|r| (r.number, r.last_entry, r.snapshot))
+                .collect(),
+            commit_since_index: self.commit_since_index,
+        }
+    }
+}
+
 #[cfg(test)]
 mod test {
     use crate::eraftpb::MessageType;
